@@ -1,2 +1,158 @@
-(* C18 - slicing a text input for parallel work loses nothing and reorders nothing. (stub) *)
+(* C18 - slicing a text input for parallel work loses nothing and reorders nothing.
+   Only statements, closed by [exact], with Print Assumptions beneath each.
+   Models: Model/FileView.v (FileView after b7f68e8, ec4dfa8), Model/Chunker.v
+   (split_file_into_chunks_by_size), Model/Indexer.v (index_chroms after c270203). *)
 From BT Require Import Base.Util Model.FileView Model.Chunker Model.Indexer.
+From BT Require Import Proofs.FileViewSim Proofs.ChunkerPartition Proofs.IndexerGrouped.
+Local Open Scope N_scope.
+
+(* ------------------------------------------------------------------ FileView *)
+(* For every file, every window [a,b) that starts inside the file (b may lie beyond its end, as
+   the u64::MAX the parallel source passes for the last chromosome) and every finite sequence of
+   Read n / Seek(Start k | Current d | End d) calls: the outcomes on the view (bytes read,
+   positions returned, no panic) are the outcomes of the same machine on the isolated range. *)
+Theorem C18_view_translation : forall (file : list N) (a b : N) (ops : list op),
+  a <= b -> a <= Nlen file -> Nlen file < 2 ^ 63 ->
+  run_view file a b ops = run_view (range file a b) 0 (b - a) ops.
+Proof. exact view_translation. Qed.
+Print Assumptions C18_view_translation.
+
+(* ... and both are the plain cursor on that byte string: reads return the bytes under the cursor,
+   every seek lands at the requested position clamped into [0, length]. *)
+Theorem C18_view_eq_cursor : forall (file : list N) (a b : N) (ops : list op),
+  a <= b -> a <= Nlen file -> Nlen file < 2 ^ 63 ->
+  run_view file a b ops = cursor_run (range file a b) 0 ops.
+Proof. exact view_eq_cursor. Qed.
+Print Assumptions C18_view_eq_cursor.
+
+(* A reader that drains the view through a buffer of any size >= 1 (BufReader, read_to_end)
+   receives exactly the bytes of the range, in order. *)
+Theorem C18_view_read_all : forall (file : list N) (a b bufsize : N) (v : view),
+  a <= b -> a <= Nlen file -> Nlen file < 2 ^ 63 -> 1 <= bufsize ->
+  view_new (Nlen file) a b = Ok v ->
+  exists fuel, read_all fuel file v bufsize = Ok (range file a b).
+Proof. exact view_read_all. Qed.
+Print Assumptions C18_view_read_all.
+
+(* Non-vacuity: the D7 witness.  Window [5,10) of a 12-byte file; End(-8) reaches before the
+   window (the unrepaired code panicked here), then reads and further seeks. *)
+Definition ex_bytes : list N := [100; 101; 102; 103; 104; 105; 106; 107; 108; 109; 110; 111].
+Definition ex_ops : list op :=
+  [Seek (SEnd (-8)); Read 3; Seek (SCurrent 100); Read 1; Seek (SStart 4); Read 9; Seek (SEnd 5)].
+Example C18_example_view :
+  5 <= 10 /\ 5 <= Nlen ex_bytes /\ Nlen ex_bytes < 2 ^ 63 /\
+  run_view ex_bytes 5 10 ex_ops =
+    [Ok (Pos 0); Ok (Bytes [105; 106; 107]); Ok (Pos 5); Ok (Bytes []); Ok (Pos 4); Ok (Bytes [109]); Ok (Pos 5)].
+Proof. repeat split; vm_compute; congruence. Qed.
+
+(* ------------------------------------------------------------------ chunker *)
+(* For every file (any bytes: any lines, last one with or without newline) and every chunk count
+   n >= 1, split_file_into_chunks_by_size terminates without error and returns pieces (a_i, b_i)
+   with a_0 = 0, a_{i+1} = b_i, b_last = file size; every a_i is the start of a line; and no piece
+   is empty unless the file is. *)
+Theorem C18_chunks_partition : forall (file : list N) (n : N), 1 <= n ->
+  exists cs, split_file_into_chunks_by_size file n = Ok cs /\
+             chain 0 cs (Nlen file) /\
+             Forall (fun ab => cut_ok file (fst ab)) cs /\
+             (file <> [] -> Forall (fun ab => fst ab < snd ab) cs).
+Proof. exact chunks_partition. Qed.
+Print Assumptions C18_chunks_partition.
+
+(* Consequently the lines read piece by piece are the lines of the file, in order: raw lines ... *)
+Theorem C18_chunks_lines : forall (file : list N) (n : N) (cs : list (N * N)),
+  split_file_into_chunks_by_size file n = Ok cs ->
+  concat (map (fun ab => split_lines (range file (fst ab) (snd ab))) cs) = split_lines file.
+Proof. exact chunks_lines. Qed.
+Print Assumptions C18_chunks_lines.
+
+(* ... and as StreamingLineReader delivers them (trailing white space trimmed). *)
+Theorem C18_chunks_line_stream : forall (file : list N) (n : N) (cs : list (N * N)),
+  split_file_into_chunks_by_size file n = Ok cs ->
+  concat (map (fun ab => line_stream (range file (fst ab) (snd ab))) cs) = line_stream file.
+Proof. exact chunks_line_stream. Qed.
+Print Assumptions C18_chunks_line_stream.
+
+(* Non-vacuity: "ab\ncd\n\nefgh" (no final newline) in 3 pieces; with 7 requested pieces there are
+   only as many as lines. *)
+Definition ex_text : list N := [97; 98; 10; 99; 100; 10; 10; 101; 102; 103; 104].
+Example C18_example_chunks :
+  split_file_into_chunks_by_size ex_text 3 = Ok [(0, 6); (6, 7); (7, 11)] /\
+  split_file_into_chunks_by_size ex_text 7 = Ok [(0, 3); (3, 6); (6, 7); (7, 11)] /\
+  split_file_into_chunks_by_size ex_text 1 = Ok [(0, 11)].
+Proof. repeat split; vm_compute; reflexivity. Qed.
+
+(* ------------------------------------------------------------------ indexer *)
+(* A file is its list of lines (chromosome id, length in bytes >= 1); [grouped]: between two lines
+   of one chromosome there is no line of another; [run_starts f]: (offset, chromosome) of the first
+   line of every maximal run.
+   For every non-empty chromosome-grouped file of well-formed lines, index_chroms returns exactly
+   the first-line offset of each chromosome run.  The recursion depth limit of do_index (S lim)
+   is not reached when size^2 < 2^lim. *)
+Theorem C18_index_grouped : forall (lim : nat) (f : file),
+  f <> [] -> Forall wf_line f -> grouped f ->
+  fsize f * fsize f < 2 ^ N.of_nat lim ->
+  index_chroms (S lim) f = Ok (Some (run_starts f)).
+Proof. exact index_chroms_grouped. Qed.
+Print Assumptions C18_index_grouped.
+
+(* With the limit 100 written in the code: every such file below 2^49 bytes. *)
+Theorem C18_index_grouped_100 : forall (f : file),
+  f <> [] -> Forall wf_line f -> grouped f -> fsize f < 2 ^ 49 ->
+  index_chroms depth_limit f = Ok (Some (run_starts f)).
+Proof. exact index_chroms_grouped_100. Qed.
+Print Assumptions C18_index_grouped_100.
+
+(* Whatever the limit and the size: on a grouped file an answer, if there is one (no panic at the
+   depth limit, no malformed line), is the run starts. *)
+Theorem C18_index_grouped_if_ok : forall (limit : nat) (f : file) r,
+  Forall (fun l => 1 <= snd l) f -> grouped f ->
+  index_chroms limit f = Ok r -> r = Some (run_starts f).
+Proof. exact index_chroms_grouped_ok. Qed.
+Print Assumptions C18_index_grouped_if_ok.
+
+(* "reports that the file is not grouped" (Ok None) is sound ... *)
+Theorem C18_index_none_not_grouped : forall (limit : nat) (f : file),
+  Forall (fun l => 1 <= snd l) f -> index_chroms limit f = Ok None -> ~ grouped f.
+Proof. exact index_chroms_none_not_grouped. Qed.
+Print Assumptions C18_index_none_not_grouped.
+
+(* ... but only because it never happens: the duplicate check sorts (offset, name) pairs that are
+   in offset order already and compares the list with itself (finding, see notes/C18.md). *)
+Theorem C18_index_never_none : forall (limit : nat) (f : file),
+  Forall (fun l => 1 <= snd l) f -> index_chroms limit f <> Ok None.
+Proof. exact index_chroms_never_none. Qed.
+Print Assumptions C18_index_never_none.
+
+(* The decidable test the check's oracle uses is the declarative [grouped]. *)
+Theorem C18_groupedb_iff : forall (f : file), groupedb f = true <-> grouped f.
+Proof. intros f. split; [apply groupedb_sound | apply groupedb_complete]. Qed.
+Print Assumptions C18_groupedb_iff.
+
+(* Non-vacuity: the two D8 witnesses (the unrepaired bisection answered [(0,1)] on both), and a
+   file with a long line inside a run. *)
+Definition ex_f1 : file := [(1, 12); (2, 12)].
+Definition ex_f2 : file := [(1, 11); (2, 11); (3, 50)].
+Definition ex_f3 : file := [(7, 8); (7, 300); (7, 8); (3, 9); (5, 10); (5, 10); (5, 1)].
+Example C18_example_index :
+  (ex_f1 <> [] /\ Forall wf_line ex_f1 /\ grouped ex_f1 /\ fsize ex_f1 < 2 ^ 49 /\
+   index_chroms depth_limit ex_f1 = Ok (Some [(0, 1); (12, 2)])) /\
+  (ex_f2 <> [] /\ Forall wf_line ex_f2 /\ grouped ex_f2 /\ fsize ex_f2 < 2 ^ 49 /\
+   index_chroms depth_limit ex_f2 = Ok (Some [(0, 1); (11, 2); (22, 3)])) /\
+  (ex_f3 <> [] /\ Forall wf_line ex_f3 /\ grouped ex_f3 /\ fsize ex_f3 < 2 ^ 49 /\
+   run_starts ex_f3 = [(0, 7); (316, 3); (325, 5)] /\
+   index_chroms depth_limit ex_f3 = Ok (Some (run_starts ex_f3))).
+Proof.
+  repeat split; try discriminate; try (apply groupedb_sound; vm_compute; reflexivity);
+    try (vm_compute; reflexivity);
+    repeat (constructor; try (split; [discriminate | vm_compute; discriminate])).
+Qed.
+
+(* A file that is not grouped, whose three runs the probes do find: the answer lists chromosome 1
+   twice instead of reporting (see C18_index_never_none). *)
+Example C18_example_not_grouped :
+  ~ grouped [(1, 30); (3, 9); (1, 9)] /\
+  index_chroms depth_limit [(1, 30); (3, 9); (1, 9)] = Ok (Some [(0, 1); (30, 3); (39, 1)]).
+Proof.
+  split; [|vm_compute; reflexivity].
+  intros H. apply groupedb_complete in H. vm_compute in H. discriminate.
+Qed.
